@@ -67,7 +67,7 @@ CHECKS = {
    text="Exploration in both build configurations: 20-200 hostile inputs per run (random bytes, oversize and truncated frames, mutated copies of real frames, out-of-range tags, huge lengths, malformed key strings, cross-component digests of the shared store, unknown origins, absurd rounds signed by a harness-held authority, 1 MiB transactions) followed by probes of every service of every node: still commits, answers a block sync request and a batch request from its store, batches a fresh transaction; any panic inside /repo code is a violation.",
    note="Found and repaired two genuine defects (see known_findings.json). Decoder totality is exercised where reachable from the wire and from the JSON files read by Node::new, not by direct calls."),
  "C16": dict(ref="5/C16", tech="deterministic simulation of the real Store (RocksDB) under several concurrent handles with seeded yields; exact command order from store-side taps checked against a map model; reopen",
-   text="Exploration: 2..6 client tasks, 1..4 overlapping keys, values that are unique strings, the empty byte string or a single zero byte, writes / reads / notify-reads with several waiters per key registered before and after writes; every result is compared with a sequential map model replayed in the exact order in which the store task took up the commands; every notify-read on a written key has returned at quiescence with the first value written after its registration (or the current one), those on unwritten keys stay pending; after dropping all handles the store is reopened and every key reads its last value.",
+   text="Exploration: 2..6 client tasks, 1..4 overlapping keys, values that are unique strings, the empty byte string or a single zero byte, a fifth of the notify-reads abandoned by their caller right after the command was sent, writes / reads / notify-reads with several waiters per key registered before and after writes; every result is compared with a sequential map model replayed in the exact order in which the store task took up the commands; every notify-read on a written key has returned at quiescence with the first value written after its registration (or the current one), those on unwritten keys stay pending; after dropping all handles the store is reopened and every key reads its last value.",
    note="Interleavings are varied by seeded yields and tokio knobs rather than by an own poll-order scheduler (DESIGN.md said scheduler; corrected there). Process kill is not simulated."),
 }
 
